@@ -343,6 +343,8 @@ def _signer_history(ctx: Ctx, rng: SimRng) -> None:
             ctx.log("sign", kind, name, "signed" if signed else "declined")
             ctx.state(f"{kind}:{'dead' if dead else 'open'}:{name}")
             ctx.check(P, "dead-signer-never-signs", not (dead and signed), f"{kind}.{name} signed after wipe/close", site=f"{kind}.{name}")
+            if name.startswith("same-as-fresh:"):
+                ctx.check(P, "answer-independent-of-history", not signed, f"{name}: a signer fresh from the same root declines this; the one with a history signed", site=name.split(":", 1)[1])
             if signed and not dead:
                 ctx.probe("open-signed")
 
@@ -368,6 +370,16 @@ def _soft_signer(ctx: Ctx, q: int, msg32: bytes) -> tuple[Any, list[tuple[str, C
         ("sign_schnorr_script_path", lambda: s.sign_schnorr_script_path(sec[1:], origin, msg32, bytes(32))),
         ("psbt.sign(km)", lambda: _psbt_sign(psbt, s)),
         ("request_signatures", lambda: _request(s, psbt)),
+    ]
+    # questions a signer fresh from the same root declines (None): the key named is not the one the path derives to,
+    # or the fingerprint is another wallet's. What was asked before must not change that
+    other = pub_keyinfo_from_key(bip32.derive(root, f"m/84h/0h/0h/1/{ch.draw(5, 'idx.other')}"))[0]
+    foreign_fp = BIP32KeyOrigin(bytes(b ^ 0xFF for b in s.master_fingerprint), path)
+    eps += [
+        ("same-as-fresh:sign_ecdsa/other-key-at-this-path", lambda: s.sign_ecdsa(other, origin, msg32)),
+        ("same-as-fresh:sign_schnorr/other-key-at-this-path", lambda: s.sign_schnorr(other[1:], origin, msg32, b"")),
+        ("same-as-fresh:sign_schnorr_script_path/other-key-at-this-path", lambda: s.sign_schnorr_script_path(other[1:], origin, msg32, bytes(32))),
+        ("same-as-fresh:sign_ecdsa/other-fingerprint", lambda: s.sign_ecdsa(sec, foreign_fp, msg32)),
     ]
     killers: list[tuple[str, Callable[[], Any]]] = [("close", s.close)]
     return s, eps, killers
